@@ -5,12 +5,15 @@ import PlzVerif.Model.BuildE2E
 /-!
 C01  Incremental builds produce exactly what a clean build produces.
 
-`C01_main` is the property for EVERY history (any sequence of builds of arbitrary repository states and arbitrary
+`C01_main_if_injective` is the property for EVERY history (any sequence of builds of arbitrary repository states and arbitrary
 removals from plz-out), every deterministic action semantics `exec`, every well-formed dependency-ordered target
 list — under the two injectivity hypotheses on the hash pre-images, which are exactly the statements of C08
-(`ruleSer`) and C09 (`pathSer`).  On the pinned tree C09's hypothesis is false for directories (content-only
-pre-image), and `C01_witness` is the kernel-checked history where the model's incremental result differs from
-clean — the same history that the end-to-end harness replays on the real binary (corpus/C01/known-*.ops).
+(`ruleSer`) and C09 (`pathSer`).  On the pinned tree BOTH hypotheses are false for the pre-images as coded — the path pre-image ignores entry names
+inside directories and permission bits (`C01_witness`, `C01_witness_mode_not_hashed`), the rule pre-image is
+concatenated unframed (`C01_witness_rule_preimage_not_injective`, C08) — so the theorem is named `_if_injective`: it
+says exactly which two repairs make the property hold, and it is instantiable for any injective pair of
+pre-images.  The witnesses are kernel-checked and the corresponding histories are replayed on the real binary
+(corpus/C01/known-*.ops, known findings).
 -/
 namespace PlzVerif.Props.C01
 open PlzVerif.Build
@@ -29,7 +32,7 @@ theorem facts_cmp : generatedFacts.cmpRule = true ∧ generatedFacts.cmpSource =
 
 /-- From ANY plz-out satisfying the history invariant, one incremental build gives every requested target
     (and dependency) exactly its clean-build output. -/
-theorem C01_incremental_eq_clean (hR : Function.Injective ruleSer) (hP : Function.Injective pathSer)
+theorem C01_incremental_eq_clean_if_injective (hR : Function.Injective ruleSer) (hP : Function.Injective pathSer)
     (r : Repo K A F N C) (sel : K → Bool) (out : Out K C S N H)
     (hinv : Inv exec ruleSer pathSer out) (hwf : WFList sel [] r.targets) :
     ∀ k ∈ selKeys sel r.targets, ∃ c st,
@@ -41,12 +44,12 @@ theorem C01_incremental_eq_clean (hR : Function.Injective ruleSer) (hP : Functio
 
 /-- The property over all histories: start from an empty plz-out, let the user do anything (builds of any
     intermediate repository states with any requested sets, deleting any outputs), then build `r` for `sel`. -/
-theorem C01_main (hR : Function.Injective ruleSer) (hP : Function.Injective pathSer)
+theorem C01_main_if_injective (hR : Function.Injective ruleSer) (hP : Function.Injective pathSer)
     (history : List (HOp K A F N C)) (r : Repo K A F N C) (sel : K → Bool) (hwf : WFList sel [] r.targets) :
     ∀ k ∈ selKeys sel r.targets, ∃ c st,
       (build generatedFacts (mvCoded generatedFacts pathSer) exec ruleSer pathSer r sel (runHist generatedFacts (mvCoded generatedFacts pathSer) exec ruleSer pathSer history (fun _ => none))).1 k = some (c, st) ∧
       (clean exec r sel).lookup k = some c :=
-  C01_incremental_eq_clean exec ruleSer pathSer hR hP r sel _
+  C01_incremental_eq_clean_if_injective exec ruleSer pathSer hR hP r sel _
     (runHist_inv generatedFacts (mvCoded generatedFacts pathSer) exec ruleSer pathSer (mvCoded_ok _ _) hP history _ (inv_empty exec ruleSer pathSer)) hwf
 
 /-- A target skipped as up to date has the output its current definition would produce (the induction step). -/
@@ -84,7 +87,7 @@ theorem C01_witness :
   decide
 
 open Witness in
-/-- the hypothesis of `C01_main` that fails on the witness: the coded directory pre-image is not injective -/
+/-- the hypothesis of `C01_main_if_injective` that fails on the witness: the coded directory pre-image is not injective -/
 theorem C01_witness_pathSer_not_injective : ¬ Function.Injective pserBad := by
   intro h
   have := @h [(1, 7), (2, 7)] [(1, 7), (9, 7)] (by decide)
@@ -103,7 +106,25 @@ theorem C01_witness_optional_output_lingers : ¬ MvOK PlzVerif.BuildE2E.pathSer 
 theorem C01_mvE2E_declared (old : PlzVerif.BuildE2E.Tree) (c : String) :
     PlzVerif.BuildE2E.mvE2E old (.file c) = mvCoded generatedFacts PlzVerif.BuildE2E.pathSer old (.file c) := rfl
 
--- non-vacuity of C01_main's hypotheses: a well-formed two-target list with injective pre-images
+/-- Third witness (permission bits): the coded path pre-image of a file is its bytes, so an executable and a
+    non-executable file with the same bytes are identified; moveOutput then keeps the old one. Replayed on the real
+    binary by corpus/C01/known-mode-not-hashed.ops (known finding). -/
+theorem C01_witness_mode_not_hashed :
+    PlzVerif.BuildE2E.pathSer (.file "hi\n") = PlzVerif.BuildE2E.pathSer (.filex "hi\n") ∧
+    (PlzVerif.BuildE2E.Tree.file "hi\n" ≠ .filex "hi\n") ∧
+    PlzVerif.BuildE2E.mvE2E (.file "hi\n") (.filex "hi\n") = .file "hi\n" := by
+  refine ⟨rfl, by simp, ?_⟩
+  have hk : generatedFacts.keepOld = true := by decide
+  simp [PlzVerif.BuildE2E.mvE2E, mvCoded, PlzVerif.BuildE2E.pathSer, hk]
+
+/-- The rule pre-image of the end-to-end instance is concatenated unframed, exactly like `ruleHash`: it is not
+    injective either (C08's finding), so `C01_main_if_injective`'s first hypothesis also fails for the code as it is. -/
+theorem C01_witness_rule_preimage_not_injective : ¬ Function.Injective PlzVerif.BuildE2E.ruleSer := by
+  intro h
+  have := @h ⟨"ab", .cat, [], "o"⟩ ⟨"a", .cat, ["b"], "o"⟩ (by simp [PlzVerif.BuildE2E.ruleSer, String.join])
+  simp at this
+
+-- non-vacuity of C01_main_if_injective's hypotheses: a well-formed two-target list with injective pre-images
 example : WFList (fun _ => true) [] ([⟨0, 0, [0], []⟩, ⟨1, 1, [], [0]⟩] : List (Target Nat Nat Nat)) := by
   simp [WFList]
 
